@@ -35,8 +35,15 @@ def regen():
     everything the build of this property reads is regenerated from the working tree"""
     import srctie
     out = {}
-    for p in ("C13", "C03", "C01"):
-        out.update(srctie.regen(p))
+    import timetrans   # RegionGeomToO.generate_times read statement by statement (Gen/Src/C13Time.lean)
+    first_error = None
+    for gen in [lambda p=p: srctie.regen(p) for p in ("C13", "C03", "C01")] + [timetrans.regen]:
+        try:     # every generator runs, so that no module is left behind from an earlier tree when another one fails
+            out.update(gen())
+        except Exception as e:  # noqa: BLE001
+            first_error = first_error or e
+    if first_error is not None:
+        raise first_error
     return out
 
 
